@@ -411,3 +411,8 @@ LEVEL_NOTE = ("Trusted: Coq kernel; Spec/PesSpec.v + Spec/TimestampSpec.v as the
               "serialiser in the generator is compared with the extracted one on every record); the transcription Model/Pes.v; "
               "extraction and glue. ISO also lists program_stream_map (0xBC) without optional header; the property and the code list seven ids.")
 TECHNIQUE = "Coq proof (parser inverts serialiser; lor-as-add + lia for the timestamps) + correspondence, exhaustive on the id x flag x length-class grid"
+
+
+# coverage round (notes/coverage.md): cases and support theorems for exported identifiers outside the property text
+from gen import covlib
+covlib.install(globals())
